@@ -430,6 +430,17 @@ fn run_b(engine: Engine, rules: &[BRule], x0: i64, nfacts: u8, second_call: bool
                 if list.len() as u64 >= bound {
                     obs.count("probe.iteration_bound_reached");
                 }
+                // noloop.once at the engines: between resets (the second call follows a reset) a no-loop rule
+                // is in the returned list at most once, however many facts match it and whatever its action does
+                for (i, r) in rules.iter().enumerate().filter(|(_, r)| r.no_loop) {
+                    let k = list.iter().filter(|nm| **nm == format!("R{i}")).count();
+                    if k > 1 {
+                        return Err(viol("noloop.once", site, "no-loop-rule-fired-more-than-once-in-fire-all", format!("no-loop rule R{i} ({r:?}) is {k} times in the list fire_all returned: {list:?}"), call));
+                    }
+                    if k == 1 {
+                        obs.count("probe.no_loop_rule_fired_in_engine_run");
+                    }
+                }
                 Ok(list.len())
             }
             Err(p) => {
